@@ -1,41 +1,82 @@
 ---------------------------- MODULE AnnexBWriter ----------------------------
 (* C35, generative model: a NAL sequence goes through pion/rtp's payloader   *)
 (* (codecs.H264Payloader / codecs.H265Payloader, transcribed at the grain of *)
-(* what they do with one unit: SPS/PPS caching and the STAP-A, the H.265     *)
-(* parameter-set cache and aggregation buffer, fragmentation into S / middle *)
-(* / E fragmentation units) and the resulting packets go through WriteRTP of *)
-(* pkg/media/h264writer / h265writer (key-frame gate isKeyFrame + the        *)
-(* depacketizer), in three variants of the writer:                           *)
+(* what they do with one unit, with their size arithmetic: SPS/PPS caching   *)
+(* and the STAP-A with its MTU test, the H.265 parameter-set cache and the   *)
+(* aggregation buffer with canAggregate / shouldAggregateNow, fragmentation  *)
+(* into S / middle / E units of mtu-2 resp. mtu-3 payload bytes) and the     *)
+(* resulting packets go through WriteRTP of pkg/media/h264writer /           *)
+(* h265writer (key-frame gate isKeyFrame + the depacketizer), in three       *)
+(* variants of the writer:                                                   *)
 (*   "asis"     the code as it is                                            *)
 (*   "pktfix"   isKeyFrame repaired, gate still per packet                   *)
 (*   "intended" gate per NAL unit: exactly the property                      *)
-(* TLC explores every input sequence up to MaxNals units and checks          *)
+(* Unit lengths are numbers chosen from size classes defined relative to the *)
+(* MTU (LenOf): small, the single/fragment boundary mtu-1 / mtu / mtu+1, the *)
+(* H.265 aggregation boundary mtu-7 / mtu-6, fragmentations whose last       *)
+(* fragment carries 1, 2 or a full slice of bytes, and absolute sizes around *)
+(* 255 / 256 / 257 (two-byte length fields of STAP-A / AP), 300, 700.        *)
+(* TLC explores every input sequence up to MaxNals units (optionally after a *)
+(* parameter-set opener) and checks                                          *)
 (*   out = FromKey(packetized units, first key unit)                         *)
 (* for the variant named by Impl; the sequences are emitted as vectors that  *)
-(* are replayed through the real payloader, writer and reader.               *)
+(* are replayed, byte length for byte length, through the real payloader,    *)
+(* writer and reader.                                                        *)
 EXTENDS AnnexBOps, TLC, Json
 
 CONSTANTS Impl,        \* variant the invariant Correct talks about
           Codecs,      \* subset of {"h264", "h265"}
-          MaxNals,     \* units per input sequence
+          MTUs,        \* MTUs offered
+          Sizes,       \* size classes offered (see LenOf)
+          MaxNals,     \* units per input sequence (after the opener)
+          Openers,     \* subset of BOOLEAN: TRUE = the sequence starts with small in-band parameter sets
+          Aggs,        \* subset of BOOLEAN: aggregation enabled (H.264: !DisableStapA, H.265: !SkipAggregation)
           Types264,    \* NAL unit types offered to H.264 (1 non-IDR, 5 IDR, 6 SEI, 7 SPS, 8 PPS)
           Types265,    \* NAL unit types offered to H.265 (1 TRAIL_R, 19 IDR_W_RADL, 32 VPS, 33 SPS, 34 PPS, 39 SEI)
           Emit
 
 VARIABLES codec,       \* "h264" | "h265"
-          agg,         \* aggregation enabled (H.264: !DisableStapA, H.265: !SkipAggregation)
-          inp,         \* units fed so far: [id, ty, big, eos]; big = larger than the MTU; eos = last unit of its Payload() call
-          pay,         \* payloader state
-          wr,          \* writer state per variant: [hasKey, part, out]
-          pk           \* units carried by the packets emitted so far: [id, ty, k]
+          agg,         \* aggregation enabled
+          mtu,
+          nfed,        \* units fed after the opener
+          st           \* [inp, pay, wr, pk]:
+                       \*   inp units fed so far: [id, ty, len, eos]; eos = last unit of its Payload() call
+                       \*   pay payloader state;  wr writer state per variant: [hasKey, part, out]
+                       \*   pk  units carried by the packets emitted so far: [id, ty, k]
 
-vars  == <<codec, agg, inp, pay, wr, pk>>
+vars  == <<codec, agg, mtu, nfed, st>>
 Impls == {"asis", "pktfix", "intended"}
+
+\* ---- sizes -----------------------------------------------------------------------------------
+Hdr   == IF codec = "h264" THEN 1 ELSE 2          \* header bytes not carried in a fragment's payload
+Slice == IF codec = "h264" THEN mtu - 2 ELSE mtu - 3   \* payload bytes per fragment (FU-A: 2, FU: 3 bytes of headers)
+
+LenOf(c) ==
+  CASE c = "s"    -> 17                     \* small (an H.265 SPS of 17 bytes still carries a parsable id)
+    [] c = "m-"   -> mtu - 1                \* single NAL unit packet
+    [] c = "m"    -> mtu                    \* largest single NAL unit packet
+    [] c = "m+"   -> mtu + 1                \* smallest fragmented unit: 2 fragments, the last carries 2 bytes
+    [] c = "m7"   -> mtu - 7                \* H.265: largest unit canAggregateH265 accepts
+    [] c = "m6"   -> mtu - 6                \* H.265: smallest unit that is sent alone
+    [] c = "e0"   -> Hdr + 2 * Slice        \* 2 fragments, the last one full
+    [] c = "g1"   -> Hdr + 2 * Slice + 1    \* 3 fragments, the last carries 1 byte (3-byte FU-A / 4-byte FU)
+    [] c = "g2"   -> Hdr + 2 * Slice + 2    \* 3 fragments, the last carries 2 bytes
+    [] c = "b"    -> Hdr + 2 * Slice + (Slice \div 2)   \* 3 fragments, ordinary
+    [] c = "g0"   -> Hdr + 3 * Slice        \* 3 fragments, the last one full
+    [] c = "h1"   -> Hdr + 3 * Slice + 1    \* 4 fragments, the last carries 1 byte
+    [] c = "L255" -> 255
+    [] c = "L256" -> 256
+    [] c = "L257" -> 257
+    [] c = "L300" -> 300
+    [] c = "L700" -> 700
 
 \* ---- packets --------------------------------------------------------------------------------
 \* [k |-> "single" | "agg" | "fuS" | "fuM" | "fuE", nals |-> units carried (one for fu*)]
-Frag(n) == IF n.big
-           THEN << [k |-> "fuS", nals |-> <<n>>], [k |-> "fuM", nals |-> <<n>>], [k |-> "fuE", nals |-> <<n>>] >>
+NFrag(n) == ((n.len - Hdr) + Slice - 1) \div Slice
+Frag(n) == IF n.len > mtu
+           THEN << [k |-> "fuS", nals |-> <<n>>] >> \o
+                [i \in 1..(NFrag(n) - 2) |-> [k |-> "fuM", nals |-> <<n>>]] \o
+                << [k |-> "fuE", nals |-> <<n>>] >>
            ELSE << [k |-> "single", nals |-> <<n>>] >>
 
 \* ---- codecs.H264Payloader.Payload, per unit (emitNalus callback) ----------------------------
@@ -46,9 +87,9 @@ Pay264(p, n) ==
     [] agg /\ n.ty = 8    -> [p |-> [p EXCEPT !.pps = <<n>>], pkts |-> <<>>]
     [] OTHER ->
          LET both == agg /\ p.sps # <<>> /\ p.pps # <<>>
-             fits == both /\ ~p.sps[1].big /\ ~p.pps[1].big                 \* len(stapANalu) <= mtu, else silently dropped
+             fits == both /\ 1 + 2 + p.sps[1].len + 2 + p.pps[1].len <= mtu    \* else silently dropped
              stap == IF fits THEN << [k |-> "agg", nals |-> <<p.sps[1], p.pps[1]>>] >> ELSE <<>>
-         IN  [p |-> IF both THEN [sps |-> <<>>, pps |-> <<>>] ELSE p, pkts |-> stap \o Frag(n)]
+         IN  [p |-> IF both THEN [p EXCEPT !.sps = <<>>, !.pps = <<>>] ELSE p, pkts |-> stap \o Frag(n)]
 
 \* ---- codecs.H265Payloader.Payload, per unit; EndCall265 = the flushBuffer() at the end of the call
 \* state [cache, buf]: parameter-set cache (ids all equal: one entry per type, latest last), aggregation buffer
@@ -56,12 +97,20 @@ Flush(buf) == CASE Len(buf) = 0 -> <<>>
                 [] Len(buf) = 1 -> << [k |-> "single", nals |-> buf] >>
                 [] OTHER        -> << [k |-> "agg", nals |-> buf] >>
 
+RECURSIVE SumLen(_)
+SumLen(b) == IF b = <<>> THEN 0 ELSE Head(b).len + SumLen(Tail(b))
+
 RECURSIVE Place(_, _, _)
-Place(buf, pkts, pending) ==     \* the loop over pendingNalus; small units always fit an aggregation packet
+Place(buf, pkts, pending) ==     \* the loop over pendingNalus
   IF pending = <<>> THEN [buf |-> buf, pkts |-> pkts]
-  ELSE LET x == Head(pending) IN
-       IF x.big THEN Place(<<>>, pkts \o Flush(buf) \o Frag(x), Tail(pending))
-       ELSE Place(Append(buf, x), pkts, Tail(pending))
+  ELSE LET x == Head(pending) rest == Tail(pending) IN
+       CASE x.len > mtu -> Place(<<>>, pkts \o Flush(buf) \o Frag(x), rest)          \* flushBuffer(); fragmentAndAppend
+         [] buf = <<>>  -> IF x.len + 7 <= mtu                                        \* canAggregateH265
+                           THEN Place(<<x>>, pkts, rest)
+                           ELSE Place(<<>>, pkts \o << [k |-> "single", nals |-> <<x>>] >>, rest)
+         [] OTHER       -> IF 2 + (Len(buf) + 1) * 2 + SumLen(buf) + x.len > mtu      \* shouldAggregateH265Now
+                           THEN Place(<<x>>, pkts \o Flush(buf), rest)
+                           ELSE Place(Append(buf, x), pkts, rest)
 
 Pay265(p, n) ==
   CASE ~agg                  -> [p |-> [p EXCEPT !.cache = <<>>], pkts |-> Frag(n)]
@@ -69,7 +118,7 @@ Pay265(p, n) ==
                                  pkts |-> <<>>]
     [] n.ty \in {35, 38}     -> [p |-> p, pkts |-> <<>>]                    \* AUD, filler: dropped
     [] OTHER -> LET r == Place(p.buf, <<>>, Append(p.cache, n)) IN
-                [p |-> [cache |-> <<>>, buf |-> r.buf], pkts |-> r.pkts]
+                [p |-> [p EXCEPT !.cache = <<>>, !.buf = r.buf], pkts |-> r.pkts]
 
 EndCall265(p) == [p |-> [p EXCEPT !.buf = <<>>], pkts |-> Flush(p.buf)]
 
@@ -135,42 +184,49 @@ Carried(pkts) ==
 
 \* ---- the state machine ------------------------------------------------------------------------
 NewWriter == [hasKey |-> FALSE, part |-> "none", out |-> <<>>]
+S0 == [inp |-> <<>>, pk |-> <<>>,
+       pay |-> [sps |-> <<>>, pps |-> <<>>, cache |-> <<>>, buf |-> <<>>],
+       wr  |-> [m \in Impls |-> NewWriter]]
 
-Init == /\ codec \in Codecs /\ agg \in BOOLEAN
-        /\ inp = <<>> /\ pk = <<>>
-        /\ pay = [sps |-> <<>>, pps |-> <<>>, cache |-> <<>>, buf |-> <<>>]
-        /\ wr = [m \in Impls |-> NewWriter]
-
-Feed(ty, big, eos) ==
-  LET n  == [id |-> Len(inp) + 1, ty |-> ty, big |-> big, eos |-> eos]
-      r1 == IF codec = "h264" THEN Pay264(pay, n) ELSE Pay265(pay, n)
+\* one unit through payloader and writers
+Step(s, ty, len, eos) ==
+  LET n  == [id |-> Len(s.inp) + 1, ty |-> ty, len |-> len, eos |-> eos]
+      r1 == IF codec = "h264" THEN Pay264(s.pay, n) ELSE Pay265(s.pay, n)
       r2 == IF codec = "h265" /\ eos THEN EndCall265(r1.p) ELSE [p |-> r1.p, pkts |-> <<>>]
       pkts == r1.pkts \o r2.pkts
-  IN  /\ inp' = Append(inp, n)
-      /\ pay' = r2.p
-      /\ wr'  = [m \in Impls |-> WriteAll(m, wr[m], pkts)]
-      /\ pk'  = pk \o Carried(pkts)
-      /\ UNCHANGED <<codec, agg>>
+  IN  [inp |-> Append(s.inp, n), pay |-> r2.p,
+       wr  |-> [m \in Impls |-> WriteAll(m, s.wr[m], pkts)],
+       pk  |-> s.pk \o Carried(pkts)]
 
-Next == /\ Len(inp) < MaxNals
-        /\ \E ty \in (IF codec = "h264" THEN Types264 ELSE Types265), big \in BOOLEAN, eos \in BOOLEAN :
+\* the opener: small parameter sets of one access unit (they are delivered with the next unit)
+Opened(s) == IF codec = "h264" THEN Step(Step(s, 7, 17, TRUE), 8, 17, TRUE)
+             ELSE Step(Step(Step(s, 32, 17, FALSE), 33, 17, FALSE), 34, 17, FALSE)
+
+Init == /\ codec \in Codecs /\ agg \in Aggs /\ mtu \in MTUs /\ nfed = 0
+        /\ \E o \in Openers : st = IF o THEN Opened(S0) ELSE S0
+
+Next == /\ nfed < MaxNals
+        /\ \E ty \in (IF codec = "h264" THEN Types264 ELSE Types265), c \in Sizes, eos \in BOOLEAN :
               /\ ((codec = "h264" \/ ~agg) => eos)  \* only the H.265 aggregation buffer depends on the Payload() call boundaries
-              /\ Feed(ty, big, eos)
+              /\ LenOf(c) >= 5 /\ LenOf(c) <= 4 * mtu
+              /\ st' = Step(st, ty, LenOf(c), eos)
+        /\ nfed' = nfed + 1
+        /\ UNCHANGED <<codec, agg, mtu>>
 
 \* ---- what TLC checks --------------------------------------------------------------------------
 Types(s) == [i \in 1..Len(s) |-> s[i].ty]
-Want     == FromKey(Ids(pk), FirstKey(Types(pk), codec))
+Want     == FromKey(Ids(st.pk), FirstKey(Types(st.pk), codec))
 
 \* C35 for the variant Impl: the output is exactly the packetized units from the first key unit onward
-Correct == wr[Impl].out = Want
+Correct == st.wr[Impl].out = Want
 \* in every variant the output is a contiguous tail of the packetized units (nothing corrupt, nothing reordered)
-TailAlways == \A m \in Impls : IsSuffix(wr[m].out, Ids(pk))
+TailAlways == \A m \in Impls : IsSuffix(st.wr[m].out, Ids(st.pk))
 \* the packet-level repair is exact whenever no aggregation packet has a non-key unit in front of the first key unit
 PktfixExactUnlessAggN ==
-  LET k == FirstKey(Types(pk), codec) IN
-  (k = 0 \/ pk[k].k # "aggN") => wr["pktfix"].out = Want
+  LET k == FirstKey(Types(st.pk), codec) IN
+  (k = 0 \/ st.pk[k].k # "aggN") => st.wr["pktfix"].out = Want
 
-EmitVec == (Emit /\ inp # <<>> /\ inp[Len(inp)].eos) =>
-             PrintT(<<"VERIF_VEC", ToJson([codec |-> codec, agg |-> agg, inp |-> inp, pk |-> pk,
-                                           asis |-> wr["asis"].out, want |-> Want])>>)
+EmitVec == (Emit /\ nfed > 0 /\ st.inp[Len(st.inp)].eos) =>
+             PrintT(<<"VERIF_VEC", ToJson([codec |-> codec, agg |-> agg, mtu |-> mtu, inp |-> st.inp, pk |-> st.pk,
+                                           asis |-> st.wr["asis"].out, want |-> Want])>>)
 =============================================================================
